@@ -14,9 +14,13 @@ SetNames == << "44", "65", "87" >>
 BuildOK(e) ==
   /\ e.lib_ok /\ e.warnings = 0 /\ e.std_symbols = 0 /\ e.probe_ok
   /\ \A i \in 1 .. 3 : (e.sets[i] = 1) <=> (SetNames[i] \in DOMAIN e.digests)
-  /\ \A i \in 1 .. 3 : e.sets[i] = 1 =>
-        \* dudect adds one more digested output; compare like with like
-        \E b \in Builds : Key(b) = << << 1, 1, 1 >>, TRUE, e.dudect >> /\ e.digests[SetNames[i]] = b.digests[SetNames[i]]
+  \* ordinary behaviour: equal to the DEFAULT configuration's, in every configuration
+  /\ \A i \in 1 .. 3 : e.sets[i] = 1 => e.digests[SetNames[i]] = DefaultB.digests[SetNames[i]]
+  \* the constant-time test entry point (only with dudect): equal to the full dudect configuration's
+  /\ e.dudect => \A i \in 1 .. 3 : e.sets[i] = 1 =>
+        \E b \in Builds : Key(b) = << << 1, 1, 1 >>, TRUE, TRUE >> /\ SetNames[i] \in DOMAIN e.ct_digests
+                           /\ e.ct_digests[SetNames[i]] = b.ct_digests[SetNames[i]]
+  /\ ~e.dudect => e.ct_digests = << >>
   /\ \A n \in DOMAIN e.negative : e.negative[n] = "rejected"
 VARIABLES done
 Init == done = FALSE
